@@ -216,6 +216,11 @@ def scalar_binop(op, a, b, wf=True):
     if op == "floordiv":
         if d == "f":
             return z3.ToReal(z3.ToInt(x / y))
+        c = _cancel_factor(x, y)
+        if c is not None:
+            if wf and not (isinstance(b, int) and b > 0):
+                cur().wf("floordiv-positive-divisor", y > 0)
+            return c
         if wf and not (isinstance(b, int) and b > 0):
             cur().wf("floordiv-positive-divisor", y > 0)
         return x / y
@@ -249,6 +254,39 @@ def scalar_binop(op, a, b, wf=True):
     if op == "min":
         return z3.If(x <= y, x, y)
     raise Unsupported(f"scalar op {op}")
+
+
+def _flat_factors(x):
+    if is_z3(x) and z3.is_mul(x):
+        out = []
+        for k in x.children():
+            out.extend(_flat_factors(k))
+        return out
+    return [x]
+
+
+def _cancel_factor(x, y):
+    """(f1*...*y*...*fn) // y  ->  product of the other factors (y > 0 is obliged by the caller)."""
+    if not is_z3(x) or not z3.is_mul(x):
+        return None
+    kids = _flat_factors(x)
+    ys = _flat_factors(y) if is_z3(y) else [y]
+    rest = list(kids)
+    for yf in ys:
+        hit = None
+        for i, k in enumerate(rest):
+            if (is_z3(yf) and k.eq(yf)) or (z3.is_int_value(k) and ((isinstance(yf, int) and k.as_long() == yf) or (is_z3(yf) and z3.is_int_value(yf) and k.as_long() == yf.as_long()))):
+                hit = i
+                break
+        if hit is None:
+            return None
+        rest.pop(hit)
+    if not rest:
+        return z3.IntVal(1)
+    r = rest[0]
+    for t in rest[1:]:
+        r = r * t
+    return r
 
 
 def binop(op, a, b):
@@ -885,6 +923,46 @@ def reshape(t, *sizes):
             return True, tuple(idx)
 
         return SymTensor(sizes, t.dtype, base=t, fwd=fwd, inv=inv)
+    # dimension-wise alignment: groups of adjacent dims merged / one dim split (the view idioms of the code)
+    plan = _align_shapes(ctx, t.shape, sizes)
+    if plan is not None:
+        ashape = t.shape
+
+        def fwd(idx, plan=plan):
+            J = [None] * len(ashape)
+            for olds, news in plan:
+                # flat index of the group from the new indices
+                flat = 0
+                for k in news:
+                    flat = simp_add(simp_int(scalar_binop("mul", flat, sizes[k], wf=False)), idx[k])
+                # decompose over the old dims of the group
+                rem = flat
+                for pos, k in enumerate(reversed(olds)):
+                    n = ashape[k]
+                    if pos == len(olds) - 1:
+                        J[k] = rem
+                    else:
+                        J[k] = simp_int(scalar_binop("mod", rem, n, wf=False))
+                        rem = simp_int(scalar_binop("floordiv", rem, n, wf=False))
+            return tuple(J)
+
+        def inv(J, plan=plan):
+            idx = [None] * len(sizes)
+            for olds, news in plan:
+                flat = 0
+                for k in olds:
+                    flat = simp_add(simp_int(scalar_binop("mul", flat, ashape[k], wf=False)), J[k])
+                rem = flat
+                for pos, k in enumerate(reversed(news)):
+                    n = sizes[k]
+                    if pos == len(news) - 1:
+                        idx[k] = rem
+                    else:
+                        idx[k] = simp_int(scalar_binop("mod", rem, n, wf=False))
+                        rem = simp_int(scalar_binop("floordiv", rem, n, wf=False))
+            return True, tuple(idx)
+
+        return SymTensor(sizes, t.dtype, base=t, fwd=fwd, inv=inv, prov=("reshape",))
     # general: element counts must agree
     tot_a, tot_b = _prod(t.shape), _prod(sizes)
     if not ctx.same(tot_a, tot_b):
@@ -894,7 +972,7 @@ def reshape(t, *sizes):
     def fwd(idx):
         flat = 0
         for i, n in zip(idx, sizes):
-            flat = simp_add(simp_int(scalar_binop("mul", flat, n)), i)
+            flat = simp_add(simp_int(scalar_binop("mul", flat, n, wf=False)), i)
         J = []
         rem = flat
         for k in range(len(ashape) - 1, -1, -1):
@@ -902,11 +980,66 @@ def reshape(t, *sizes):
             if k == 0:
                 J.append(rem)
             else:
-                J.append(simp_int(scalar_binop("mod", rem, n)) if not (isinstance(n, int) and n == 1) else 0)
-                rem = simp_int(scalar_binop("floordiv", rem, n)) if not (isinstance(n, int) and n == 1) else rem
+                J.append(simp_int(scalar_binop("mod", rem, n, wf=False)) if not (isinstance(n, int) and n == 1) else 0)
+                rem = simp_int(scalar_binop("floordiv", rem, n, wf=False)) if not (isinstance(n, int) and n == 1) else rem
         return tuple(reversed(J))
 
     return SymTensor(sizes, t.dtype, base=t, fwd=fwd, inv=None, prov=("reshape",))
+
+
+def _align_shapes(ctx, old, new):
+    """Partition both shapes into aligned groups with equal products where each group has a single
+    dim on at least one side. Returns [(old_dim_indices, new_dim_indices)] or None."""
+    i = j = 0
+    plan = []
+    while i < len(old) or j < len(new):
+        if i < len(old) and j < len(new) and ctx.same(old[i], new[j]):
+            plan.append(([i], [j]))
+            i += 1
+            j += 1
+            continue
+        # try merge: new[j] == old[i] * old[i+1] * ...
+        done = False
+        if j < len(new):
+            prod = 1
+            for e in range(i, len(old)):
+                prod = simp_int(scalar_binop("mul", prod, old[e], wf=False))
+                if e > i and ctx.same(prod, new[j]):
+                    plan.append((list(range(i, e + 1)), [j]))
+                    i, j = e + 1, j + 1
+                    done = True
+                    break
+        if done:
+            continue
+        if i < len(old):
+            prod = 1
+            for e in range(j, len(new)):
+                prod = simp_int(scalar_binop("mul", prod, new[e], wf=False))
+                if e > j and ctx.same(prod, old[i]):
+                    plan.append(([i], list(range(j, e + 1))))
+                    i, j = i + 1, e + 1
+                    done = True
+                    break
+        if done:
+            continue
+        # 1-dims may be skipped on either side
+        if i < len(old) and isinstance(old[i], int) and old[i] == 1:
+            plan.append(([i], []))
+            i += 1
+            continue
+        if j < len(new) and isinstance(new[j], int) and new[j] == 1:
+            plan.append(([], [j]))
+            j += 1
+            continue
+        return None
+    # groups with an empty side: fix indices to 0
+    out = []
+    for olds, news in plan:
+        if not olds or not news:
+            out.append((olds, news))
+        else:
+            out.append((olds, news))
+    return out
 
 
 def _exact_div(ctx, a, b):
